@@ -17,6 +17,10 @@ CONS = {
     "der_le": lambda x1, x2, dx1, tk: (dx1, None, 0.9),
     "der_mix": lambda x1, x2, dx1, tk: (dx1 + 0.5 * x2, -1.2, 1.0),
     "inert_t": lambda x1, x2, dx1, tk: (x1 - 0.1 * tk, None, 0.8),
+    # a non-spline operand on the left of the state expression
+    "c_minus_x": lambda x1, x2, dx1, tk: (0.875 - x1, None, 1.125),
+    "c_minus_prod": lambda x1, x2, dx1, tk: (2.0 - x1 * x2 - x1, -0.5, 2.6),
+    "c_minus_der": lambda x1, x2, dx1, tk: (0.5 - dx1, None, 1.4),
 }
 BAD = ["sin", "control", "time", "param", "expl_euler", "dc_deg3", "cvodes"]
 
@@ -332,6 +336,6 @@ def run_case(case):
 
 def describe(tier):
     return dict(
-        rule="polynomial constraint alphabet (9 forms of degree 1..2 in two scalar states: x, -x, sum, product, square, two-sided, inf_der, inf_der mixed, inf_inert(t)) x {SingleShooting rk, MultipleShooting rk, DirectCollocation degree 4} x N in 1..3 x M x {uniform, geometric, free} grid x {fixed, free} horizon; certificate rows = rows the twin without the constraint does not have; for every direction of the alphabet (3 generic + both signs of every unit vector) the first crossing of the certificate boundary is located by 50 halvings on the real rows, and there (and at 0.9 and 0.5 of it) the exact minimum over all times of the constraint's slack along the scheme's own degree-4 polynomial (polynomial arithmetic on the refine=8 sample, extrema at derivative roots) must be >= 0; programs without a guarantee (sin, control / time / per-interval-parameter dependence, expl_euler, collocation degree 3, cvodes) must raise before the solver is called; slack left at the boundary must not grow from M=1 to M=4 (SingleShooting rays)",
+        rule="polynomial constraint alphabet (12 forms incl. constant-minus-state forms of degree 1..2 in two scalar states: x, -x, sum, product, square, two-sided, inf_der, inf_der mixed, inf_inert(t)) x {SingleShooting rk, MultipleShooting rk, DirectCollocation degree 4} x N in 1..3 x M x {uniform, geometric, free} grid x {fixed, free} horizon; certificate rows = rows the twin without the constraint does not have; for every direction of the alphabet (3 generic + both signs of every unit vector) the first crossing of the certificate boundary is located by 50 halvings on the real rows, and there (and at 0.9 and 0.5 of it) the exact minimum over all times of the constraint's slack along the scheme's own degree-4 polynomial (polynomial arithmetic on the refine=8 sample, extrema at derivative roots) must be >= 0; programs without a guarantee (sin, control / time / per-interval-parameter dependence, expl_euler, collocation degree 3, cvodes) must raise before the solver is called; slack left at the boundary must not grow from M=1 to M=4 (SingleShooting rays)",
         bound="N<=3, M<=%d, all unit directions" % (4 if tier == "thorough" else 2),
         assumptions=["the scheme's own trajectory is read through sample(grid='integrator', refine=8) (C08 decides that it is the polynomial)", "rays start at the solver's starting point (certificate-feasible) and keep the time coordinates fixed"])
